@@ -3,6 +3,11 @@ C16 — a blocked transaction is always re-offered once its blocker resolves.
 Model: `Grevm/Model/TxDep.lean`.
 -/
 import Grevm.Model.TxDep
+import Grevm.Lemmas.TxDepStep
+import Grevm.Lemmas.TxDepInv
+import Grevm.Lemmas.TxDepEdge
+import Grevm.Lemmas.TxDepClaim
+import Grevm.Lemmas.TxDepHandoff
 
 namespace Grevm.TxDep
 
@@ -34,5 +39,231 @@ example :
        .call 0 (.remove 0 false), .stepT 0 0, .stepT 0 2]).map
       (fun r => (r.1.dependency 2, r.1.onboard 2, r.1.index)) = some (some 1, true, 0) := by
   decide
+
+/-! ## 1. lock_owner -/
+
+/-- **lock_owner.** In every reachable state a record mutex / edge-set mutex is held by thread
+    `t` exactly when `t`'s control point lies inside the corresponding critical section. -/
+theorem lock_owner {n : Nat} {s : State} (h : Reachable n s) :
+    (∀ i t, s.depLock i = some t ↔ HoldsDep (s.pc t) i) ∧
+    (∀ d t, s.affLock d = some t ↔ HoldsAff (s.pc t) d) :=
+  lockInv_reachable h
+
+/-- Mutual exclusion on every record mutex. -/
+theorem dep_mutex {n : Nat} {s : State} (h : Reachable n s) {i : Nat} {t u : Tid}
+    (ht : HoldsDep (s.pc t) i) (hu : HoldsDep (s.pc u) i) : t = u := by
+  have h1 := ((lock_owner h).1 i t).2 ht
+  have h2 := ((lock_owner h).1 i u).2 hu
+  rw [h1] at h2; exact Option.some.inj h2
+
+/-- Mutual exclusion on every reverse-edge-set mutex. -/
+theorem aff_mutex {n : Nat} {s : State} (h : Reachable n s) {d : Nat} {t u : Tid}
+    (ht : HoldsAff (s.pc t) d) (hu : HoldsAff (s.pc u) d) : t = u := by
+  have h1 := ((lock_owner h).2 d t).2 ht
+  have h2 := ((lock_owner h).2 d u).2 hu
+  rw [h1] at h2; exact Option.some.inj h2
+
+/-- A free mutex means nobody is inside the critical section. -/
+theorem lock_free_no_holder {n : Nat} {s : State} (h : Reachable n s) :
+    (∀ i, s.depLock i = none → ∀ t, ¬ HoldsDep (s.pc t) i) ∧
+    (∀ d, s.affLock d = none → ∀ t, ¬ HoldsAff (s.pc t) d) := by
+  constructor
+  · intro i hi t ht; have := ((lock_owner h).1 i t).2 ht; simp [hi] at this
+  · intro d hd t ht; have := ((lock_owner h).2 d t).2 ht; simp [hd] at this
+
+/-! ## 2. edge_covered -/
+
+/-- **edge_covered.** In EVERY reachable state (no exception for a running `remove`), a forward
+    edge `dependency[t] = some d` to another transaction has its reverse edge `t ∈ affect[d]`.
+    (`d ≠ t` is needed: `key_tx` writes the self-edge `dependency[t] = some t` without a reverse
+    edge, see the example below.) -/
+theorem edge_covered {n : Nat} {s : State} (h : Reachable n s) {t d : Nat}
+    (hdep : s.dependency t = some d) (hne : d ≠ t) : t ∈ s.affect d :=
+  (edgeInv_reachable h).2.1 t d hdep hne
+
+/-- Auxiliary half of the inductive invariant: the elements a running `remove(d)` has already
+    processed no longer name `d` as their blocker (unless it is the self-edge of `d`). -/
+theorem remove_seen_clear {n : Nat} {s : State} (h : Reachable n s) {u : Tid} {d : Nat}
+    {seen : List Nat} (hu : rmOf (s.pc u) = some (d, seen)) {x : Nat} (hx : x ∈ seen)
+    (hdep : s.dependency x = some d) : x = d :=
+  (edgeInv_reachable h).2.2 u d seen hu x hx hdep
+
+/-- Quiescent corollary of `edge_covered`. -/
+theorem edge_covered_quiescent {n : Nat} {s : State} (h : Reachable n s)
+    (_hq : ∀ u, s.pc u = .idle) {t d : Nat} (hdep : s.dependency t = some d) (hne : d ≠ t) :
+    t ∈ s.affect d :=
+  edge_covered h hdep hne
+
+/-- The side condition `d ≠ t` of `edge_covered` cannot be dropped: `key_tx(1)` before tx 0 is
+    committed writes the self-edge `dependency[1] = some 1` and no reverse edge. -/
+example :
+    (run (init 2) [.call 0 (.keyTx 1), .stepT 0 0, .stepT 0 0]).map
+      (fun r => (r.1.dependency 1, r.1.affect 1)) = some (some 1, []) := by
+  decide
+
+/-! ## 3. stale_edge_harmless -/
+
+/-- **stale_edge_harmless.** One iteration step of `remove(d)` on the listed element `tx`
+    changes a `dependency` entry only if it is `tx`'s and it still named `d` (then it becomes
+    `none`); a stale reverse edge (`dependency[tx] ≠ some d`) therefore changes nothing: neither
+    `dependency`, nor `onboard`, nor the cursor. -/
+theorem stale_edge_harmless {s s' : State} {t : Tid} {d tx : Nat} {pop : Bool} {seen : List Nat}
+    {nx : Option Nat} {r : Ret} (hpc : s.pc t = .rmIter d pop seen nx)
+    (h : step s (.stepT t tx) = some (s', r)) :
+    (∀ x, s'.dependency x ≠ s.dependency x →
+        x = tx ∧ s.dependency tx = some d ∧ s'.dependency tx = none) ∧
+    (s.dependency tx ≠ some d →
+        s'.dependency = s.dependency ∧ s'.onboard = s.onboard ∧ s'.index = s.index) := by
+  have hs := step_sound_stepT h
+  cases hs
+  all_goals try (rename_i hrc; cases hrc)
+  all_goals
+    have hpc' := (by assumption : s.pc t = _)
+    rw [hpc] at hpc'
+    clear h
+    cases hpc' <;>
+      (simp only [setPc, upd]
+       refine ⟨fun x hx => ?_, fun hst => ?_⟩ <;> grind)
+
+/-! ## 4. claimable_covered -/
+
+/-- Explicit form of `Covers`: the pending control points that will claim `x` or rewind the
+    cursor to (at most) `x`. -/
+theorem covers_iff (p : Pc) (x : Nat) :
+    Covers p x ↔
+      p = .nextLock x ∨ (∃ d pop seen nx, p = .rmMin d pop seen nx x) ∨ p = .cmMin x ∨
+      p = .keyMin x ∨ (∃ y, p = .addMin y x) ∨ p = .addNoneMin x := by
+  cases p <;> simp [Covers, eq_comm]
+
+/-- **claimable_covered.** In every reachable state a claimable transaction (`x < n`, on board,
+    no blocker) is either not yet passed by the cursor, or some thread is at a control point that
+    will examine exactly `x` (`nextLock x`) or `fetch_min` the cursor down to `x`
+    (`rmMin … x`, `cmMin x`, `keyMin x`, `addMin _ x`, `addNoneMin x`). -/
+theorem claimable_covered {n : Nat} {s : State} (h : Reachable n s) {x : Nat} (hx : x < n)
+    (hon : s.onboard x = true) (hdep : s.dependency x = none) :
+    s.index ≤ x ∨ ∃ u, Covers (s.pc u) x := by
+  have hc : ClaimInv s :=
+    reachable_invariant ClaimInv n (claimInv_init n)
+      (fun _ _ _ _ hp hs => claimInv_step hp (step_sound hs)) s h
+  exact hc x (by rw [n_reachable h]; exact hx) hon hdep
+
+/-- Quiescent corollary (**no orphan**): when no call is in flight, every claimable transaction
+    is at or ahead of the cursor, so subsequent `next()` calls reach it. -/
+theorem claimable_quiescent {n : Nat} {s : State} (h : Reachable n s)
+    (hq : ∀ u, s.pc u = .idle) {x : Nat} (hx : x < n) (hon : s.onboard x = true)
+    (hdep : s.dependency x = none) : s.index ≤ x := by
+  rcases claimable_covered h hx hon hdep with h | ⟨u, hu⟩
+  · exact h
+  · rw [hq u] at hu; simp [Covers] at hu
+
+/-! ## 5. single_claim, hand-off case -/
+
+/-- **single_claim (hand-off step).** If an iteration step of `remove(d)` returns `i`, or leaves
+    `i` as the carried hand-off value, then either `i` was already being carried, or this very
+    step handed `i` off: it found `i` on board (record mutex free, blocker `d`) and in the same
+    step took it off board and cleared its blocker. -/
+theorem handoff_takes_offboard {s s' : State} {t : Tid} {d pick : Nat} {pop : Bool}
+    {seen : List Nat} {nx : Option Nat} {r : Ret} (hpc : s.pc t = .rmIter d pop seen nx)
+    (h : step s (.stepT t pick) = some (s', r)) {i : Nat}
+    (hi : r = some (some i) ∨ pcNx (s'.pc t) = some i) :
+    nx = some i ∨
+      (i = pick ∧ i ∉ seen ∧ pop = true ∧ i = d + 1 ∧ s.index > i ∧ s.depLock i = none ∧
+        s.onboard i = true ∧ s.dependency i = some d ∧
+        s'.onboard i = false ∧ s'.dependency i = none) := by
+  have hs := step_sound_stepT h
+  cases hs
+  all_goals try (rename_i hrc; cases hrc)
+  all_goals
+    have hpc' := (by assumption : s.pc t = _)
+    rw [hpc] at hpc'
+    clear h
+    cases hpc' <;>
+      (simp only [setPc, upd, if_true, pcNx] at hi ⊢
+       grind)
+
+/-- The `fetch_min` step of `remove` only passes the carried hand-off value on. -/
+theorem rmMin_carries {s s' : State} {t : Tid} {d tx pick : Nat} {pop : Bool}
+    {seen : List Nat} {nx : Option Nat} {r : Ret} (hpc : s.pc t = .rmMin d pop seen nx tx)
+    (h : step s (.stepT t pick) = some (s', r)) :
+    (r = some nx ∧ s'.pc t = .idle) ∨ (r = none ∧ pcNx (s'.pc t) = nx) := by
+  have hs := step_sound_stepT h
+  cases hs
+  all_goals try (rename_i hrc; cases hrc)
+  all_goals
+    have hpc' := (by assumption : s.pc t = _)
+    rw [hpc] at hpc'
+    clear h
+    cases hpc' <;> simp [setPc, upd, pcNx]
+
+/-- At most one hand-off per `remove` call: a hand-off step starts with nothing carried. -/
+theorem handoff_once {n : Nat} {s s' : State} (hr : Reachable n s) {t : Tid} {d pick : Nat}
+    {pop : Bool} {seen : List Nat} {nx : Option Nat} {r : Ret}
+    (hpc : s.pc t = .rmIter d pop seen nx)
+    (h : step s (.stepT t pick) = some (s', r)) {i : Nat}
+    (hi : r = some (some i) ∨ pcNx (s'.pc t) = some i) (hne : nx ≠ some i) : nx = none := by
+  rcases handoff_takes_offboard hpc h hi with h1 | ⟨_, hns, _, hid, _⟩
+  · exact absurd h1 hne
+  · cases hnx : nx with
+    | none => rfl
+    | some j =>
+        have := nxInv_reachable hr t d seen j (by simp [hpc, rmFull, hnx])
+        obtain ⟨hj, hjs⟩ := this
+        have : j = i := by omega
+        subst this
+        exact absurd hjs hns
+
+/-- **single_claim.** Every step of the model that returns `some i` is either the claim step of
+    `next()` (finds `i` on board with no blocker, takes it off board), or a step of `remove`
+    returning the carried hand-off value, which was obtained by a hand-off step satisfying
+    `handoff_takes_offboard` (possibly this very step). -/
+theorem single_claim {s s' : State} {a : Act} {i : Nat}
+    (h : step s a = some (s', some (some i))) :
+    (s.pc a.tid = .nextLock i ∧ s.onboard i = true ∧ s.dependency i = none ∧
+        s'.onboard i = false) ∨
+    (∃ d pop seen nx, s.pc a.tid = .rmIter d pop seen nx ∧
+        (nx = some i ∨
+          (i = a.pick ∧ s.onboard i = true ∧ s.dependency i = some d ∧
+            s'.onboard i = false ∧ s'.dependency i = none))) ∨
+    (∃ d pop seen tx, s.pc a.tid = .rmMin d pop seen (some i) tx) := by
+  cases a with
+  | call t c =>
+      exfalso
+      simp only [step] at h
+      split at h
+      · cases c with
+        | add x d => cases d <;> simp at h
+        | _ => simp at h
+      · simp at h
+  | stepT t pick =>
+      simp only [Act.tid, Act.pick]
+      cases hpc : s.pc t with
+      | nextLock j =>
+          have hs := step_sound_stepT h
+          cases hs
+          all_goals try (rename_i hrc; cases hrc)
+          all_goals
+            have hpc' := (by assumption : s.pc t = _)
+            rw [hpc] at hpc'
+            cases hpc'
+          exact Or.inl ⟨rfl, by assumption, by assumption, by simp [setPc, upd]⟩
+      | rmIter d pop seen nx =>
+          rcases handoff_takes_offboard hpc h (Or.inl rfl) with h1 | h1
+          · exact Or.inr (Or.inl ⟨d, pop, seen, nx, rfl, Or.inl h1⟩)
+          · exact Or.inr (Or.inl ⟨d, pop, seen, nx, rfl,
+              Or.inr ⟨h1.1, h1.2.2.2.2.2.2.1, h1.2.2.2.2.2.2.2.1, h1.2.2.2.2.2.2.2.2⟩⟩)
+      | rmMin d pop seen nx tx =>
+          rcases rmMin_carries hpc h with ⟨h1, _⟩ | ⟨h1, _⟩
+          · simp at h1; subst h1
+            exact Or.inr (Or.inr ⟨d, pop, seen, tx, rfl⟩)
+          · simp at h1
+      | _ =>
+          exfalso
+          have hs := step_sound_stepT h
+          cases hs
+          all_goals try (rename_i hrc; cases hrc)
+          all_goals
+            have hpc' := (by assumption : s.pc t = _)
+            rw [hpc] at hpc'
+            cases hpc'
 
 end Grevm.TxDep
